@@ -85,6 +85,11 @@ def session_cases(tier, rng):
                 calls.append(sess.E(l))
             elif r < 0.36:
                 calls.append(sess.E(gen_lines.numbered(rng, gen_lines.soup(rng, rng.randint(1, 8)))))
+            elif r < 0.45:
+                # an INPUT statement answered field by field from a set of awkward fields
+                vs = [rng.choice(["A", "S$", "T$", "I%", "P(1)", "R$(2)"]) for _ in range(rng.randint(1, 3))]
+                fields = [rng.choice(['"', '""', "a", "", " ", '"x', "1", "é", '" "', "x\"", '"""', "1e5", "&H"]) for _ in vs]
+                calls += [sess.E("INPUT " + ",".join(vs)), "R5000", "A5000:" + sess.hx(",".join(fields)), "A5000:" + sess.hx(",".join(["1"] * len(vs)))]
             elif r < 0.6:
                 calls += [sess.E(rng.choice(DIRECT)), "R%d" % rng.choice([1, 7, 5000, 5000])]
             elif r < 0.72:
